@@ -53,7 +53,7 @@ def execute(ctx, binary, groups, tag):
     inp, outp = os.path.join(d, "groups.ndjson"), os.path.join(d, "out.ndjson")
     with open(inp, "w") as f:
         for g in groups:
-            f.write(json.dumps({"decls": [{"m": x["m"], "h": x["h"], "p": x["p"], "t": x["t"]} for x in g["decls"]],
+            f.write(json.dumps({"decls": [{"m": x["m"], "h": x["h"], "p": x["p"], "t": x["t"], "pl": x.get("pl", "on")} for x in g["decls"]],
                                 "orders": g["orders"],
                                 "reqs": [{"m": r["m"], "h": r["h"], "p": r["p"]} for r in g["reqs"]]}) + "\n")
     ctx.run_harness(binary, ["run", inp, outp], timeout=1200)
@@ -65,7 +65,8 @@ def execute(ctx, binary, groups, tag):
 
 def events_of(g, real, ri_list):
     """trace events of one group restricted to the requests ri_list: group, (req, out per order)*"""
-    ev = [{"ev": "group", "decls": [{"m": d["m"], "h": d["h"], "p": d["p"], "r": d["r"], "g": d["g"]} for d in g["decls"]]}]
+    ev = [{"ev": "group", "decls": [{"m": d["m"], "h": d["h"], "p": d["p"], "r": d["r"], "g": d["g"], "pl": d.get("pl", "on")}
+                                    for d in g["decls"]]}]
     for ri in ri_list:
         rq = g["reqs"][ri]
         ev.append({"ev": "req", "m": rq["m"], "h": rq["h"], "p": rq["p"]})
@@ -134,7 +135,8 @@ def tlc_validate(ctx, blocks, tag, strict=False):
 
 
 def describe(group_ev, req_ev):
-    return {"decls": ["%s %s -> %s" % (d["m"], render(d["h"], d["p"]), d["r"]) for d in group_ev["decls"]],
+    return {"decls": ["%s %s -> %s%s" % (d["m"], render(d["h"], d["p"]), d["r"],
+                                         "" if d.get("pl", "on") == "on" else " [plugins: %s]" % d["pl"]) for d in group_ev["decls"]],
             "request": "%s %s" % (req_ev["m"], render(req_ev["h"], req_ev["p"]))}
 
 
@@ -214,7 +216,8 @@ def rand_group(rng, nreq):
             continue
         seen.add(key)
         i = len(decls) + 1
-        decls.append({"m": m, "h": h, "p": p, "t": i, "r": "d%d" % i, "g": "g%d" % i})
+        decls.append({"m": m, "h": h, "p": p, "t": i, "r": "d%d" % i, "g": "g%d" % i,
+                      "pl": rng.choice(["on", "on", "on", "on", "off", "none", "donly"])})
     reqs, rs = [], set()
     tries = 0
     while len(reqs) < nreq and tries < 200:
@@ -237,6 +240,12 @@ def rand_group(rng, nreq):
             p = p + [rng.choice(LITS + ["zz"])]
         elif x < 0.40:
             h = rng.choice(HOSTS)
+        elif x < 0.48:
+            # host-shape variants: one more label (taken from the path vocabulary), one label fewer
+            h = h + [rng.choice(LITS + ["evil", "net"])] if rng.random() < 0.6 else h[:-1] or h
+        elif x < 0.52 and p:
+            # the first path segment written as a further host label
+            h, p = h + [p[0]], p[1:]
         m = d["m"] if rng.random() < 0.7 else rng.choice(["GET", "POST", "PUT"])
         key = (m, render(h, p))
         if key in rs:
@@ -397,7 +406,8 @@ def run(ctx):
                    ] + ([("mc", "GenC13_deep.cfg", "I=>P on the seeded sample of the deeper space + case generation")] if T else []) + [
                    ("nv", "MC_nv_o5.cfg", "method map found by Lookup (O5)"),
                    ("nv", "MC_nv_norm.cfg", "fabricated normalised URL"),
-                   ("nv", "MC_nv_shadow.cfg", "shadow class present")], n=6)
+                   ("nv", "MC_nv_hostwild.cfg", "path wildcard swallowing host labels"),
+                   ("nv", "MC_nv_shadow.cfg", "shadow class present")], n=7)
 
     groups = load_groups(sd, prefix) + load_groups(sd, "s_") + load_groups(sd, "t_")
     if len(groups) < 100:
@@ -414,8 +424,8 @@ def run(ctx):
     drift, blocks, nshadow = compare_and_judge(ctx, binary, groups, reals, "generated", frac, seen)
     ctx.log("executed %d cases; %d real outcomes differ from the model's; %d in the known shadow class; %d blocks to validate"
             % (ncases, drift, nshadow, len(blocks)))
-    missing = [c for c in ("none", "exact-literal", "param", "wild-tail", "wild-zero", "param+wild", "method-hidden", "overlap", "shadow")
-               if not ctx.cov["input_classes"].get(c)]
+    missing = [c for c in ("none", "exact-literal", "param", "wild-tail", "wild-zero", "param+wild", "method-hidden", "overlap", "shadow",
+                           "winner-disabled", "host-shape") if not ctx.cov["input_classes"].get(c)]
     if missing:
         raise Broken("generated cases do not cover the input classes %s (vacuous replay)" % missing)
     if drift:
